@@ -1064,6 +1064,27 @@ func main() {
 	lg = nbdrive.InstallLogger()
 	wd = nbdrive.StartWatchdog(run, "c13")
 	wd.SpinCPU = 30 * time.Second
+	if run.Phase == "e2e" {
+		if run.Replay != "" {
+			var c e2eCase
+			if err := run.ReplayCase(&c); err != nil {
+				fmt.Println("replay:", err)
+				return
+			}
+			runE2E(run, c)
+			return
+		}
+		n := run.N(72, 432)
+		for i := 0; i < n; i++ {
+			if !run.Mine(i) {
+				continue
+			}
+			c := genE2E(run, i)
+			run.Begin(c)
+			runE2E(run, c)
+		}
+		return
+	}
 	if run.Replay != "" {
 		var c caseT
 		if err := run.ReplayCase(&c); err != nil {
